@@ -264,4 +264,6 @@ def run(ctx):
     next_int_rule(ctx, repo)
     narrowing_rule(ctx, repo)
     window_rule(ctx, repo)
+    from sa.rules import intloop
+    intloop.run(ctx, repo, 'C13.7-int-window')
     return report.finish(ctx, EXPLANATION)
